@@ -20,6 +20,12 @@ def run(tier, seed, repo, focus=None):
                     if name == "LinearFourRates" and enc > 3:
                         continue
                     scns.append({"det": name, "variant": v, "seed": seed + s, "n": 50 if d.get("slow") else 120, "enc": enc})
+    # the same encodings with the two labels of a pair in different one-element containers (scalar / list / tuple / arrays)
+    for name in ("DDM", "EDDM", "STEPD", "ADWINAccuracy"):
+        d = C.DETECTORS[name]
+        for wrap in (1, 2, 3):
+            for enc in (0, 2, 4):
+                scns.append({"det": name, "variant": 0, "seed": seed, "n": 120, "enc": enc, "wrap": wrap})
     drivers.run_scenarios(res, "agreement_only", scns, known)
     scns = []
     for name, d in C.DETECTORS.items():
